@@ -237,7 +237,8 @@ TraitDel(s, r) ==
 \* prefix relation on the name pools, tabulated (TLC has no string operators)
 PrefixPool == {"CUSTOM_", "CUSTOM_T", "HW_", "HW_CPU_X86_AVX", "ZZZ"}
 HasPrefix(t, pre) ==
-  CASE pre = "CUSTOM_"  -> t \in CustomTraitPool
+  CASE pre \in DOMAIN Vocab.prefixes -> t \in VocabSet(Vocab.prefixes[pre])
+    [] pre = "CUSTOM_"  -> t \in CustomTraitPool
     [] pre = "CUSTOM_T" -> t \in CustomTraitPool
     [] pre = "HW_"      -> t \in {"HW_CPU_X86_AVX", "HW_CPU_X86_AVX2"}
     [] pre = "HW_CPU_X86_AVX" -> t \in {"HW_CPU_X86_AVX", "HW_CPU_X86_AVX2"}
